@@ -556,10 +556,131 @@ def gen_dropout(rng: Rng) -> tuple[GB, dict]:
     return gb, desc
 
 
+def _if_reading(gb: GB, names: list[str], tag: str, cond: Optional[str] = None) -> str:
+    """An If node whose two bodies read the outer values `names` (Identity / Add); returns its output."""
+    cond = cond or gb.const(np.asarray(True), name=gb.fresh("cond"))
+
+    def body(suffix: str):
+        ns = []
+        cur = names[0]
+        for k, other in enumerate(names[1:]):
+            o = f"{tag}_{suffix}_a{k}"
+            ns.append(helper.make_node("Add", [cur, other], [o]))
+            cur = o
+        o = f"{tag}_{suffix}_o"
+        ns.append(helper.make_node("Identity", [cur], [o]))
+        return helper.make_graph(ns, f"{tag}_{suffix}", [], [helper.make_empty_tensor_value_info(o)])
+
+    return gb.node("If", [cond], then_branch=body("t"), else_branch=body("e"))
+
+
+CSE_VARIANTS = [
+    ("LeakyRelu", {"alpha": 0.1}, {"alpha": 0.3}), ("Elu", {"alpha": 1.0}, {"alpha": 0.5}),
+    ("Softmax", {"axis": 0}, {"axis": 1}), ("LogSoftmax", {"axis": -1}, {"axis": 0}),
+    ("Transpose", {"perm": [1, 0]}, {"perm": [0, 1]}), ("Cast", {"to": TensorProto.DOUBLE}, {"to": TensorProto.FLOAT16}),
+    ("ReduceSum", {"keepdims": 1}, {"keepdims": 0}), ("CumSum", {"reverse": 0}, {"reverse": 1}),
+    ("Selu", {}, {"gamma": 1.5}), ("HardSigmoid", {"alpha": 0.2}, {"alpha": 0.4}),
+]
+
+
+def gen_misc(rng: Rng) -> tuple[GB, dict]:
+    """Passes that delete or merge nodes without a layout pattern: CSE (what is 'the same node'),
+    dead-node removal, unused-input pruning, constant lifting — with nested-graph uses."""
+    kind = rng.choice(["cse_attr", "cse_attr", "cse_random", "dead_unused", "dead_unused", "const_lift", "multi_out"])
+    gb = GB()
+    desc: dict[str, Any] = {"family": "misc_" + kind, "guards": []}
+    if kind == "cse_attr":
+        op, a1, a2 = rng.choice(CSE_VARIANTS)
+        same = rng.chance(0.4)
+        x = gb.inp([3, 3])
+        src = gb.node("Tanh", [x]) if rng.chance(0.5) else x
+        extra_in = []
+        if op == "ReduceSum":
+            extra_in = [gb.const(np.asarray([1], dtype=np.int64))]
+        if op == "CumSum":
+            extra_in = [gb.const(np.asarray(1, dtype=np.int64))]
+        n1 = gb.node(op, [src] + extra_in, **a1)
+        n2 = gb.node(op, [src] + extra_in, **(a1 if same else a2))
+        desc["op"] = op
+        desc["guards"].append("identical_duplicates" if same else "attributes_differ")
+        gb.out(n1)
+        gb.out(n2)
+        if rng.chance(0.4):
+            gb.out(_if_reading(gb, [n2], gb.fresh("cse")))
+            desc["guards"].append("duplicate_captured")
+    elif kind == "cse_random":
+        gb.opset = 21          # onnxruntime has no kernel for the opset-22 Random*Like
+        x = gb.inp([4, 5])
+        mode = rng.choice(["unseeded", "same_seed", "different_seed"])
+        at1 = {} if mode == "unseeded" else {"seed": 7.0}
+        at2 = {} if mode == "unseeded" else ({"seed": 7.0} if mode == "same_seed" else {"seed": 8.0})
+        op = rng.choice(["RandomUniformLike", "RandomNormalLike"])
+        r1 = gb.node(op, [x], **at1)
+        r2 = gb.node(op, [x], **at2)
+        d = gb.node("Abs", [gb.node("Sub", [r1, r2])])
+        mx = gb.node("ReduceMax", [d], keepdims=0)
+        gb.out(gb.node("Greater", [mx, gb.const(np.asarray(0.0, dtype=np.float32))]))
+        desc["guards"].append("random_" + mode)
+        desc["op"] = op
+    elif kind == "dead_unused":
+        x = gb.inp([2, 3])
+        extra = gb.inp([2, 3], name="extra_in")          # not read at all: may be pruned
+        pos = gb.inp([2, 3]) if rng.chance(0.5) else None  # in_<k>: positional, must be kept
+        y = gb.inp([2, 3], name="only_in_body")           # read only inside an If body
+        dead = gb.node("Neg", [gb.node("Relu", [x])])     # dead chain
+        semi = gb.node("Exp", [x])                        # read only inside a body
+        nested = _if_reading(gb, [semi, y] if rng.chance(0.7) else [y], gb.fresh("du"))
+        gb.out(gb.node("Add", [x, nested]))
+        if rng.chance(0.3):
+            t = gb.node("Transpose", [x], perm=[1, 0])    # orphan transpose read only in a body
+            gb.out(_if_reading(gb, [t], gb.fresh("du")))
+            desc["guards"].append("transpose_only_in_body")
+        desc["guards"] += ["unused_input", "input_only_in_body", "dead_chain", "value_only_in_body"]
+        _ = (extra, pos, dead)
+    elif kind == "const_lift":
+        x = gb.inp([2, 3])
+        how = rng.choice(["value", "value_float", "value_ints", "empty", "in_body"])
+        desc["guards"].append("constant_" + how)
+        if how == "value":
+            c = gb.node("Constant", [], value=numpy_helper.from_array(np.arange(6, dtype=np.float32).reshape(2, 3) - 2))
+            gb.out(gb.node("Add", [x, c]))
+        elif how == "value_float":
+            c = gb.node("Constant", [], value_float=1.5)
+            gb.out(gb.node("Mul", [x, c]))
+        elif how == "value_ints":
+            c = gb.node("Constant", [], value_ints=[3, 2])
+            gb.out(gb.node("Reshape", [x, c]))
+        elif how == "empty":
+            c = gb.node("Constant", [], value=numpy_helper.from_array(np.zeros((0, 3), dtype=np.float32)))
+            gb.out(gb.node("Concat", [x, c], axis=0))
+        else:
+            c = gb.node("Constant", [], value=numpy_helper.from_array(np.asarray([[1.0, 2.0, 3.0]], dtype=np.float32)))
+            gb.out(gb.node("Mul", [x, _if_reading(gb, [c, x], gb.fresh("cl"))]))
+        if rng.chance(0.3):
+            gb.out(c)
+            desc["guards"].append("constant_is_output")
+    else:  # multi_out: operators with several outputs between foldable layout pairs
+        x = gb.inp([4, 6])
+        t1 = gb.node("Transpose", [x], perm=[1, 0])
+        if rng.chance(0.5):
+            a, b = gb.node("Split", [t1], nout=2, axis=0, num_outputs=2)
+            desc["op"] = "Split"
+        else:
+            a, b = gb.node("TopK", [t1, gb.const(np.asarray([2], dtype=np.int64))], nout=2, axis=0)
+            b = gb.node("Cast", [b], to=TensorProto.FLOAT)
+            desc["op"] = "TopK"
+        gb.out(gb.node("Transpose", [gb.node("Relu", [a])], perm=[1, 0]))
+        gb.out(gb.node("Transpose", [b], perm=[1, 0]))
+        if rng.chance(0.4):
+            gb.out(gb.node("Transpose", [gb.node("Transpose", [a], perm=[1, 0]), ], perm=[1, 0]))
+            desc["guards"].append("pair_after_multi_output")
+    return gb, desc
+
+
 FAMILIES = [
     (gen_transpose_chain, 34), (gen_add_forest, 14), (gen_elem_dag, 12), (gen_reduce, 10),
     (gen_reshape, 14), (gen_identity_reshape, 3), (gen_casts, 8), (gen_swish, 3), (gen_dropout, 2),
-    (gen_reshape_empty, 3),
+    (gen_reshape_empty, 3), (gen_misc, 12),
 ]
 
 
